@@ -48,6 +48,14 @@ static std::vector<uint32_t> digest(NifFile& nif, bool geometryOnly = false) {
 			}
 		if (geometryOnly)
 			continue;
+		{
+			// segment query (read-only by contract); the partition query has its own step in h_file_repeat
+			NifSegmentationInfo sinf;
+			std::vector<int> segParts;
+			NifFile::GetShapeSegments(s, sinf, segParts);
+			for (auto sp : segParts)
+				d.push_back((uint32_t) sp);
+		}
 		d.push_back(s->DataRef() ? s->DataRef()->index : 0xFFFFFFFE);
 		d.push_back(s->SkinInstanceRef() ? s->SkinInstanceRef()->index : 0xFFFFFFFE);
 		d.push_back((uint32_t) s->extraDataRefs.GetSize());
@@ -134,6 +142,34 @@ extern "C" void h_file_repeat(int ver, int feat, int raw) {
 	sym_assert(sym_out_equal(b.a, b.b, c.a, c.b), "C02-file-repeat3: third save of the same model differs from the second");
 	sym_assert(q1 == q2 && q2 == q3, "C02-queries: read-only queries answer differently after another save");
 	check_tables(nif, c, false);
+	// the partition query (const, read-only by contract) between two saves must not change what is written
+	{
+		std::vector<uint32_t> pq;
+		for (auto s : nif.GetShapes()) {
+			NiVector<BSDismemberSkinInstance::PartitionInfo> pinfo;
+			std::vector<int> triParts;
+			bool ok = nif.GetShapePartitions(s, pinfo, triParts);
+			pq.push_back(ok ? 1 : 0);
+			pq.push_back((uint32_t) pinfo.size());
+			for (auto tp : triParts)
+				pq.push_back((uint32_t) tp);
+		}
+		FmRange c2 = fm_save(nif, raw != 0);
+		sym_assert(sym_out_equal(c.a, c.b, c2.a, c2.b),
+				   (feat & FM_STRIPPART) ? "C02-query-partitions-strips: a save after the read-only GetShapePartitions query differs from the save before it (strip partitions)"
+										 : "C02-query-partitions: a save after the read-only GetShapePartitions query differs from the save before it");
+		std::vector<uint32_t> pq2;
+		for (auto s : nif.GetShapes()) {
+			NiVector<BSDismemberSkinInstance::PartitionInfo> pinfo;
+			std::vector<int> triParts;
+			bool ok = nif.GetShapePartitions(s, pinfo, triParts);
+			pq2.push_back(ok ? 1 : 0);
+			pq2.push_back((uint32_t) pinfo.size());
+			for (auto tp : triParts)
+				pq2.push_back((uint32_t) tp);
+		}
+		sym_assert(pq == pq2, "C02-query-partitions-answer: GetShapePartitions answers differently after a save");
+	}
 	// a model with several emptied child references (deleted shapes): saves must be repeatable from the first on
 	{
 		NifFile del(nif);
